@@ -81,4 +81,40 @@ MUTANTS = [
     dict(name="c03_zero_target_kept", props=["C03", "C12"], what="zero entries of the target are kept, so a zero-weight contract is thresholded / not liquidated exactly",
          edits=[(R, "        if self.absolute:\n            imbalance -= NrContracts(broker.holdings_quantity)\n",
                  "        if self.absolute:\n            held = {k: v for k, v in broker.holdings_quantity.items() if k in self.allocation}\n            imbalance -= NrContracts(held)\n")]),
+    # ---- C12 -----------------------------------------------------------------------------------
+    dict(name="revert_D6_zero_lot_raises", props=["C12"], what="sub-lot imbalance raises 'Quantity is zero'",
+         edits=[(R, "                if quantity == 0:\n                    # Imbalance is smaller than one lot: nothing to trade.\n                    continue\n", "")]),
+    dict(name="c12_threshold_le", props=["C12"], what="threshold test uses <= (a contract exactly at the threshold is skipped)",
+         edits=[(R, "            if abs(weights[contract]) < self.margin and contract in self.allocation:",
+                 "            if abs(weights[contract]) <= self.margin and contract in self.allocation:")]),
+    dict(name="c12_liquidation_exemption_removed", props=["C12", "C11"], what="liquidations are subject to the threshold",
+         edits=[(R, "            if abs(weights[contract]) < self.margin and contract in self.allocation:",
+                 "            if abs(weights[contract]) < self.margin:")]),
+    dict(name="c12_round_instead_of_int", props=["C12"], what="lots rounded to nearest instead of truncated",
+         edits=[(R, "                quantity = int(quantity)\n", "                quantity = int(round(quantity))\n")]),
+    dict(name="c12_floor_instead_of_int", props=["C12"], what="lots floored (differs for negative imbalances)",
+         edits=[(R, "                quantity = int(quantity)\n", "                import math\n                quantity = int(math.floor(quantity))\n")]),
+    dict(name="c12_signed_threshold", props=["C12"], what="threshold compared without abs (sells never filtered...)",
+         edits=[(R, "            if abs(weights[contract]) < self.margin and contract in self.allocation:",
+                 "            if weights[contract] < self.margin and contract in self.allocation:")]),
+    dict(name="c12_cash_traded", props=["C12", "C17"], what="cash entries are not dropped from allocations",
+         edits=[(A, "            if not isinstance(contract, Cash)\n", "")]),
+    # ---- C13 -----------------------------------------------------------------------------------
+    dict(name="c13_nan_check_removed", props=["C13"], what="holdings_values no longer raises on a NaN liquidation price",
+         edits=[(B, "                if np.isnan(liq_price):\n                    raise ValueError(\n                        \"Missing liquidation transaction_price for {}.\".format(contract)\n                    )\n", "")]),
+    dict(name="c13_nan_to_zero", props=["C13"], what="missing liquidation price valued at 0",
+         edits=[(B, "                if np.isnan(liq_price):\n                    raise ValueError(\n                        \"Missing liquidation transaction_price for {}.\".format(contract)\n                    )\n",
+                 "                if np.isnan(liq_price):\n                    liq_price = 0.0\n")]),
+    dict(name="c13_transact_inside_loop", props=["C13"], what="trades are transacted while the trade list is still being built",
+         edits=[(R, "            trades.append(trade)\n", "            trades.append(trade)\n            broker.transact(trade)\n"),
+                (B, "        for trade in rebalancing.trades:\n            self.transact(trade)\n", "")]),
+    dict(name="c13_dead_book_accepts_quotes", props=["C13", "C14"], what="a discontinued book accepts later quotes",
+         edits=[(X, "        if book.is_alive:\n            book.update(event)\n", "        book.update(event)\n")]),
+    dict(name="c13_trade_nan_bid_unchecked", props=["C13"], what="Trade does not reject a NaN bid (sell executes at NaN)",
+         edits=[(T, "        if np.isnan(bid_price):\n            raise ValueError(\"Missing bid price for contract {}.\".format(contract))\n", "")]),
+    dict(name="c13_zero_position_needs_quote", props=["C13"], what="flat positions also require a quote",
+         edits=[(B, "            if quantity == 0:\n                value = 0.0\n            else:\n", "            if False:\n                value = 0.0\n            else:\n")]),
+    dict(name="c13_checkpoint_before_trades", props=["C13", "C07"], what="track record checkpointed before trades are computed",
+         edits=[(B, "        rebalancing.trades = rebalancing.make_trades(self)\n", "        self.track_record._checkpoint(rebalancing) if False else None\n        rebalancing.trades = []\n        self.track_record._checkpoint(rebalancing)\n        rebalancing.trades = rebalancing.make_trades(self)\n"),
+                (B, "        rebalancing.context_post = self.context()\n        self.track_record._checkpoint(rebalancing)\n", "        rebalancing.context_post = self.context()\n")]),
 ]
